@@ -61,7 +61,7 @@ func NavigableSmallWorld(dst GraphBuilder, dims []int, p, q int, r float64, src 
 			if d == 0 || d > p {
 				return
 			}
-			vn := nodes[idxFromDelta(u, delta, dims, -p)]
+			un, vn := un, nodes[idxFromDelta(u, delta, dims, -p)]
 			if un.ID() > vn.ID() {
 				un, vn = vn, un
 			}
@@ -104,7 +104,7 @@ func NavigableSmallWorld(dst GraphBuilder, dims []int, p, q int, r float64, src 
 			if !ok {
 				panic("depleted distribution")
 			}
-			vn := nodes[vidx]
+			un, vn := un, nodes[vidx]
 			if !isDirected && un.ID() > vn.ID() {
 				un, vn = vn, un
 			}
